@@ -1,11 +1,13 @@
 #!/bin/bash
-# usage: tools/process_agent.sh Cxx   -> import, confirm and detect the A/B deliveries of a seeding sub-agent
+# usage: tools/process_agent.sh Cxx [round]  -> import, confirm and detect the A/B deliveries of a seeding sub-agent
 cd "$(dirname "$0")/.." || exit 2
 ID=$1
+R=${2:-1}
+if [ "$R" = "1" ]; then DIR=/tmp/seed_$ID/_seed; PFX=agent; else DIR=/tmp/seed${R}_$ID/_seed; PFX=agent$R; fi
 for L in A B; do
-  if [ -f /tmp/seed_$ID/_seed/$L.diff ]; then
-    /venv/bin/python tools/seeded.py import /tmp/seed_$ID/_seed $L agent-$ID-$L
-    /venv/bin/python tools/seeded.py confirm agent-$ID-$L
-    /venv/bin/python tools/seeded.py detect agent-$ID-$L
+  if [ -f $DIR/$L.diff ]; then
+    /venv/bin/python tools/seeded.py import $DIR $L $PFX-$ID-$L
+    /venv/bin/python tools/seeded.py confirm $PFX-$ID-$L
+    /venv/bin/python tools/seeded.py detect $PFX-$ID-$L
   fi
 done 2>&1 | grep -v conda
